@@ -18,6 +18,9 @@ from .layout_spec import DictNode, Leaf, ListNode
 from .symdata import SNode
 
 
+_CONSTANT_FACTORIES = (int, float, complex, bool, str, bytes, tuple, frozenset)
+
+
 class Expect:
     def __init__(self, run, layout, fields, strict, mode):
         self.run = run
@@ -213,11 +216,17 @@ class Expect:
         if f.default is None:
             return False
         kind, d = f.default
+        if kind == "self-factory":
+            return False   # only the constructor can compute it: nothing a loader passes is "the model's own default"
         if kind == "value":
             if a.kind == "const":
                 return a.d is d or (type(a.d) is type(d) and _eq(a.d, d) and _literal_safe(d))
             return False
         # factory: a new object per call, equal to factory()
+        if a.tag and a.tag[0] == "factory_call" and a.tag[1] is d:
+            return True
+        if hasattr(d, "log"):
+            return False       # stateful factory: only a call made during this load counts
         want = d()
         if a.kind == "ref":
             h = s.heap[a.d]
@@ -228,11 +237,12 @@ class Expect:
             if isinstance(h, HDict) and h.pairs is not None:
                 return type(want) is dict and len(want) == len(h.pairs) == 0
             return False
-        if a.kind == "const":
-            # immutable results may be shared
-            return type(a.d) is type(want) and _eq(a.d, want) and isinstance(want, (int, str, bytes, tuple, frozenset, type(None)))
         if a.tag and a.tag[0] == "factory_call" and a.tag[1] is d:
             return True
+        if a.kind == "const":
+            # the (immutable, always equal) result of a builtin class used as a factory may be written as a literal; any other
+            # factory may have state and has to be called during the load
+            return d in _CONSTANT_FACTORIES and type(a.d) is type(want) and _eq(a.d, want)
         return False
 
     # C05: trails ------------------------------------------------------------------------------------------------
